@@ -1,5 +1,7 @@
 // C24: the remote-write concurrency gate is never exceeded, also when clients
-// give up while queued at the gate, and queued requests never crash the receiver.
+// give up while queued at the gate and across reloads of the limits
+// configuration (which install a fresh gate), and queued requests never crash
+// the receiver.
 package main
 
 import (
@@ -7,10 +9,12 @@ import (
 	"context"
 	"encoding/json"
 	"fmt"
+	"go/ast"
 	"io"
 	"math/rand"
 	"net/http"
 	"net/http/httptest"
+	"strings"
 	"sync"
 	"time"
 
@@ -25,10 +29,24 @@ import (
 	"github.com/thanos-io/thanos/zzverif/common"
 )
 
+// gateCall recognises `<receiver>.Start` / `<receiver>.Done` on the write gate,
+// whatever expression denotes the gate (a local variable or a fresh lookup).
+func gateCall(text string) (recv, method string, ok bool) {
+	for _, m := range []string{"Start", "Done"} {
+		if strings.HasSuffix(text, "."+m) {
+			r := strings.TrimSuffix(text, "."+m)
+			if strings.Contains(strings.ToLower(r), "writegate") {
+				return r, m, true
+			}
+		}
+	}
+	return "", "", false
+}
+
 func facts(repo string, w io.Writer) error {
 	for _, f := range [][3]string{
-		{"pkg/receive/handler.go", "Handler.receiveHTTP", "receiveHTTP_events"},
-		{"pkg/receive/handler_otlp.go", "Handler.receiveOTLPHTTP", "receiveOTLPHTTP_events"},
+		{"pkg/receive/handler.go", "Handler.receiveHTTP", "receiveHTTP"},
+		{"pkg/receive/handler_otlp.go", "Handler.receiveOTLPHTTP", "receiveOTLPHTTP"},
 	} {
 		s, err := common.ParseSrc(repo, f[0])
 		if err != nil {
@@ -37,6 +55,22 @@ func facts(repo string, w io.Writer) error {
 		evs, err := s.CallOrder(f[1])
 		if err != nil {
 			return err
+		}
+		// canonical names for the gate calls + the expressions they are called on
+		startRecv, doneRecv := "", ""
+		for i, e := range evs {
+			if e.Kind != "call" && e.Kind != "defer" {
+				continue
+			}
+			if r, m, ok := gateCall(e.Text); ok {
+				if m == "Start" && startRecv == "" {
+					startRecv = r
+				}
+				if m == "Done" && doneRecv == "" {
+					doneRecv = r
+				}
+				evs[i].Text = "writeGate." + m
+			}
 		}
 		// keep the prefix up to the end of the gate protocol (the deferred Done
 		// and the end of the `if err != nil` block that follows Start, whichever
@@ -69,15 +103,35 @@ func facts(repo string, w io.Writer) error {
 		if iDefer+1 > cut {
 			cut = iDefer + 1
 		}
-		fmt.Fprintf(w, "(* %s %s: call/defer/if/return events in source order, up to the end of the gate protocol *)\n%s\n",
-			f[0], f[1], common.EventsCoq(f[2], evs[:cut]))
+		fmt.Fprintf(w, "(* %s %s: call/defer/if/return events in source order, up to the end of the gate protocol (gate calls under canonical names) *)\n%s\n",
+			f[0], f[1], common.EventsCoq(f[2]+"_events", evs[:cut]))
+		// how many times the expression Start/Done are called on is bound in the function
+		fd, err := s.FindFunc(f[1])
+		if err != nil {
+			return err
+		}
+		bindings := 0
+		ast.Inspect(fd.Body, func(n ast.Node) bool {
+			if as, ok := n.(*ast.AssignStmt); ok {
+				for _, l := range as.Lhs {
+					if id, ok := l.(*ast.Ident); ok && id.Name == startRecv {
+						bindings++
+					}
+				}
+			}
+			return true
+		})
+		fmt.Fprintf(w, "(* %s: the expressions Start and the deferred Done are called on, and the number of assignments to the former *)\n", f[1])
+		fmt.Fprintf(w, "Definition %s_start_receiver : string := %s%%string.\nDefinition %s_done_receiver : string := %s%%string.\nDefinition %s_gate_bindings : Z := %d.\n\n",
+			f[2], common.CoqString(startRecv), f[2], common.CoqString(doneRecv), f[2], bindings)
 	}
 	return nil
 }
 
 type op struct {
-	Op string `json:"op"`           // arrive | arrive_dead | cancel | cancel_newest | finish | abort
-	EP string `json:"ep,omitempty"` // http | otlp (arrive)
+	Op  string `json:"op"`            // arrive | arrive_dead | cancel | cancel_newest | finish | abort | reload
+	EP  string `json:"ep,omitempty"`  // http | otlp (arrive)
+	Max int    `json:"max,omitempty"` // reload: max_concurrency of the reloaded configuration
 }
 
 type input struct {
@@ -99,6 +153,7 @@ const (
 type reqState struct {
 	id          int
 	ep          string
+	gate        int // generation of the gate whose Start this request entered
 	cancel      context.CancelFunc
 	release     chan struct{}
 	abort       chan struct{}
@@ -112,26 +167,36 @@ type reqState struct {
 type ctxKey struct{}
 
 type rig struct {
-	mu     sync.Mutex
-	cond   *sync.Cond
+	mu    sync.Mutex
+	cond  *sync.Cond
+	gates []*gateRec
+	reqs  []*reqState
+}
+
+// gateRec wraps one gate installed in the limiter (the initial one or one
+// installed by a configuration reload) and records what happens on it.
+type gateRec struct {
+	g      *rig
+	id     int
 	max    int
 	tokens int
-	reqs   []*reqState
 	inner  gate.Gate
 }
 
-func (g *rig) Start(ctx context.Context) error {
+func (gr *gateRec) Start(ctx context.Context) error {
+	g := gr.g
 	r, _ := ctx.Value(ctxKey{}).(*reqState)
 	g.mu.Lock()
 	if r != nil {
 		r.phase = phWaiting
+		r.gate = gr.id
 	}
 	g.cond.Broadcast()
 	g.mu.Unlock()
-	err := g.inner.Start(ctx)
+	err := gr.inner.Start(ctx)
 	g.mu.Lock()
 	if err == nil {
-		g.tokens++
+		gr.tokens++
 		if r != nil {
 			r.phase = phAdmitted
 		}
@@ -144,21 +209,22 @@ func (g *rig) Start(ctx context.Context) error {
 	return err
 }
 
-func (g *rig) Done() {
+func (gr *gateRec) Done() {
+	g := gr.g
 	g.mu.Lock()
-	g.tokens--
+	gr.tokens--
 	g.cond.Broadcast()
 	g.mu.Unlock()
 	defer func() {
 		if p := recover(); p != nil {
 			g.mu.Lock()
-			g.tokens++ // nothing was taken out of the gate
+			gr.tokens++ // nothing was taken out of the gate
 			g.cond.Broadcast()
 			g.mu.Unlock()
 			panic(p)
 		}
 	}()
-	g.inner.Done()
+	gr.inner.Done()
 }
 
 type blockBody struct {
@@ -190,20 +256,22 @@ func (b *blockBody) Read(p []byte) (int, error) {
 func (b *blockBody) Close() error { return nil }
 
 func (g *rig) quiescent() bool {
-	waiting := 0
 	for _, r := range g.reqs {
 		switch r.phase {
 		case phWaiting:
 			if r.dead {
 				return false // Start is about to return (admitted or ctx.Err)
 			}
-			waiting++
+			gr := g.gates[r.gate]
+			if gr.tokens < gr.max {
+				return false // its gate has room: it is about to be admitted
+			}
 		case phWorking, phDone:
 		default:
 			return false
 		}
 	}
-	return waiting == 0 || g.tokens >= g.max
+	return true
 }
 
 func (g *rig) waitQuiescent() error {
@@ -228,27 +296,34 @@ func (g *rig) waitQuiescent() error {
 	defer g.mu.Unlock()
 	for !g.quiescent() {
 		if time.Now().After(deadline) {
-			return fmt.Errorf("no quiescent state within 20s (tokens=%d)", g.tokens)
+			return fmt.Errorf("no quiescent state within 20s")
 		}
 		g.cond.Wait()
 	}
 	return nil
 }
 
+type gateSnap struct {
+	Max, Working, Waiting int
+}
 type snap struct {
-	Working, Waiting, Finished, Cancelled, Panics int
+	Gates                       []gateSnap
+	Finished, Cancelled, Panics int
 }
 
 func (g *rig) snapshot() snap {
 	g.mu.Lock()
 	defer g.mu.Unlock()
-	var s snap
+	s := snap{Gates: make([]gateSnap, len(g.gates))}
+	for i, gr := range g.gates {
+		s.Gates[i].Max = gr.max
+	}
 	for _, r := range g.reqs {
 		switch {
 		case r.phase == phWorking:
-			s.Working++
+			s.Gates[r.gate].Working++
 		case r.phase == phWaiting:
-			s.Waiting++
+			s.Gates[r.gate].Waiting++
 		case r.phase == phDone && r.panicVal != nil:
 			s.Panics++
 		case r.phase == phDone && r.startFailed:
@@ -260,6 +335,19 @@ func (g *rig) snapshot() snap {
 	return s
 }
 
+// limitsFile is the limits configuration the limiter (re)loads.
+type limitsFile struct {
+	mu  sync.Mutex
+	max int
+}
+
+func (l *limitsFile) Content() ([]byte, error) {
+	l.mu.Lock()
+	defer l.mu.Unlock()
+	return []byte(fmt.Sprintf("write:\n  global:\n    max_concurrency: %d\n", l.max)), nil
+}
+func (l *limitsFile) Path() string { return "limits.yaml" }
+
 func run(raw json.RawMessage) (common.Case, error) {
 	var in input
 	if err := json.Unmarshal(raw, &in); err != nil {
@@ -268,13 +356,24 @@ func run(raw json.RawMessage) (common.Case, error) {
 	if in.Max < 1 {
 		return common.Case{}, fmt.Errorf("max must be >= 1")
 	}
-	limiter, err := receive.NewLimiter(nil, nil, receive.RouterIngestor, log.NewNopLogger(), time.Second)
+	cfg := &limitsFile{max: in.Max}
+	limiter, err := receive.NewLimiter(cfg, nil, receive.RouterIngestor, log.NewNopLogger(), time.Second)
 	if err != nil {
 		return common.Case{}, err
 	}
-	g := &rig{max: in.Max, inner: gate.New(nil, in.Max, gate.WriteRequests)}
+	g := &rig{}
 	g.cond = sync.NewCond(&g.mu)
-	receive.VerifSetWriteGate(limiter, g)
+	// wrap the gate the limiter has just installed (initially and after every
+	// reload) with a recorder; between a (re)load and the wrapping no request
+	// runs: all of them are parked in a gate or in their request body
+	wrap := func(max int) {
+		gr := &gateRec{g: g, id: len(g.gates), max: max, inner: limiter.WriteGate()}
+		g.mu.Lock()
+		g.gates = append(g.gates, gr)
+		g.mu.Unlock()
+		receive.VerifSetWriteGate(limiter, gr)
+	}
+	wrap(in.Max)
 	h := receive.NewHandler(log.NewNopLogger(), &receive.Options{
 		TenantHeader:      tenancy.DefaultTenantHeader,
 		ReplicaHeader:     receive.DefaultReplicaHeader,
@@ -361,8 +460,10 @@ func run(raw json.RawMessage) (common.Case, error) {
 				g.mu.Unlock()
 				close(r.release)
 			} else if r := oldest(phWaiting); r != nil {
+				g.mu.Lock()
+				r.phase = phCancelling
+				g.mu.Unlock()
 				r.cancel()
-				time.Sleep(time.Millisecond)
 			} else {
 				g.mu.Lock()
 				all := true
@@ -383,7 +484,7 @@ func run(raw json.RawMessage) (common.Case, error) {
 	var c common.Case
 	var steps []string
 	var obs []any
-	maxWorking := 0
+	reachedCap, gateEvents, reloads := false, 0, 0
 	for _, o := range in.Ops {
 		var resolved string
 		switch o.Op {
@@ -402,6 +503,7 @@ func run(raw json.RawMessage) (common.Case, error) {
 			g.mu.Unlock()
 			if failed {
 				resolved = common.App("OArriveDead", epCoq(o.EP))
+				gateEvents++
 			} else {
 				resolved = common.App("OArrive", epCoq(o.EP))
 			}
@@ -413,34 +515,44 @@ func run(raw json.RawMessage) (common.Case, error) {
 			if r := pick(phWaiting); r != nil {
 				g.mu.Lock()
 				r.phase = phCancelling // transient until Start returns
+				gi := r.gate
 				g.mu.Unlock()
 				r.cancel()
-				resolved = common.App("OCancel", epCoq(r.ep))
+				resolved = common.App("OCancel", epCoq(r.ep), common.Nat(gi))
+				gateEvents++
 			} else {
 				resolved = "OCancelNone"
 			}
-		case "finish":
+		case "finish", "abort":
 			if r := oldest(phWorking); r != nil {
 				g.mu.Lock()
 				r.phase = phReleased
+				gi := r.gate
 				g.mu.Unlock()
-				close(r.release)
-				resolved = "OFinish"
+				if o.Op == "abort" {
+					// the client gives up while its request is inside the write path
+					r.cancel()
+					close(r.abort)
+				} else {
+					close(r.release)
+				}
+				resolved = common.App("OFinish", epCoq(r.ep), common.Nat(gi))
 			} else {
 				resolved = "OFinishNone"
 			}
-		case "abort":
-			// the client gives up while its request is inside the write path
-			if r := oldest(phWorking); r != nil {
-				g.mu.Lock()
-				r.phase = phReleased
-				g.mu.Unlock()
-				r.cancel()
-				close(r.abort)
-				resolved = "OFinish"
-			} else {
-				resolved = "OFinishNone"
+		case "reload":
+			if o.Max < 1 {
+				return c, fmt.Errorf("reload needs max >= 1")
 			}
+			cfg.mu.Lock()
+			cfg.max = o.Max
+			cfg.mu.Unlock()
+			if err := receive.VerifReloadLimits(limiter); err != nil {
+				return c, err
+			}
+			wrap(o.Max)
+			resolved = common.App("OReload", common.Nat(o.Max))
+			reloads++
 		default:
 			return c, fmt.Errorf("bad op %q", o.Op)
 		}
@@ -448,15 +560,19 @@ func run(raw json.RawMessage) (common.Case, error) {
 			return c, err
 		}
 		s := g.snapshot()
-		steps = append(steps, common.Pair(resolved, common.Tuple(common.Nat(s.Working), common.Nat(s.Waiting), common.Nat(s.Finished), common.Nat(s.Cancelled), common.Nat(s.Panics))))
+		var gs []string
+		for i, x := range s.Gates {
+			gs = append(gs, common.Tuple(common.Nat(x.Max), common.Nat(x.Working), common.Nat(x.Waiting)))
+			if x.Working >= x.Max {
+				reachedCap = true
+			}
+			if x.Working > x.Max && c.GoPred == "" {
+				c.GoPred = fmt.Sprintf("%d requests admitted by gate #%d are inside the write path, its max concurrency is %d", x.Working, i, x.Max)
+				c.Sig = "over-admission"
+			}
+		}
+		steps = append(steps, common.Pair(resolved, common.Tuple(common.List(gs), common.Nat(s.Finished), common.Nat(s.Cancelled), common.Nat(s.Panics))))
 		obs = append(obs, map[string]any{"op": o, "state": s})
-		if s.Working > maxWorking {
-			maxWorking = s.Working
-		}
-		if s.Working > in.Max && c.GoPred == "" {
-			c.GoPred = fmt.Sprintf("%d requests inside the write path with max concurrency %d", s.Working, in.Max)
-			c.Sig = "over-admission"
-		}
 		if s.Panics > 0 && c.GoPred == "" {
 			c.GoPred = "a request panicked in gate.Done (more operations done than started)"
 			c.Sig = "gate-done-panic"
@@ -465,16 +581,13 @@ func run(raw json.RawMessage) (common.Case, error) {
 	c.Coq = common.App("CGate", common.Nat(in.Max), common.List(steps))
 	c.Obs = obs
 	c.Class = fmt.Sprintf("max%d", in.Max)
-	cancels := 0
-	for _, s := range steps {
-		if bytes.Contains([]byte(s), []byte("OCancel ")) || bytes.Contains([]byte(s), []byte("OArriveDead")) {
-			cancels++
-		}
-	}
-	if cancels > 0 {
+	if gateEvents > 0 {
 		c.Class += "/cancel-while-queued"
 	}
-	c.Nontrivial = cancels > 0 && maxWorking >= in.Max
+	if reloads > 0 {
+		c.Class += "/reload"
+	}
+	c.Nontrivial = (gateEvents > 0 || reloads > 0) && reachedCap
 	return c, nil
 }
 
@@ -488,7 +601,19 @@ func gen(r *rand.Rand, tier string, n int) []any {
 		in := input{Max: 1 + r.Intn(3)}
 		k := 4 + r.Intn(maxOps-3)
 		pa := 35 + r.Intn(30) // arrival pressure differs per case
+		preload := 0          // per-case probability (%) of a configuration reload per step
+		if r.Intn(2) == 0 {
+			preload = 5 + r.Intn(15)
+		}
 		for j := 0; j < k; j++ {
+			if r.Intn(100) < preload {
+				m := in.Max // mostly an unchanged configuration (a reload installs a fresh gate anyway)
+				if r.Intn(3) == 0 {
+					m = 1 + r.Intn(3)
+				}
+				in.Ops = append(in.Ops, op{Op: "reload", Max: m})
+				continue
+			}
 			switch x := r.Intn(100); {
 			case x < pa:
 				o := op{Op: "arrive", EP: common.Pick(r, "http", "http", "otlp")}
